@@ -1,7 +1,7 @@
 (* C07 — compound priority is a deterministic, documented function of the DAG. *)
 From Coq Require Import List ZArith Permutation.
 From Tawazi Require Import Graph Closure Priority PriorityFacts Sched SchedInv SchedPrio.
-From Tawazi Require Reconf ReconfFacts.
+From Tawazi Require Reconf ReconfFacts Greedy GreedyFacts.
 From Coq Require Import ZArith.
 Import ListNotations.
 
@@ -64,3 +64,22 @@ Theorem C07_raising_reconfiguration_changes_nothing (nodes : list nat) (tagged :
   Reconf.step nodes tagged st c = None -> Reconf.step_total nodes tagged st c = st.
 Proof. exact (ReconfFacts.step_error_unchanged nodes tagged st c). Qed.
 Print Assumptions C07_raising_reconfiguration_changes_nothing.
+
+(* ... and that unique order is the DOCUMENTED one: Greedy.greedy_order, a function of the declared configuration
+   alone (nodes, dependencies, compound priorities) - repeatedly the root of the remaining graph with the greatest
+   compound priority.  Every complete run resolves (submits / executes inline / skips) its nodes in exactly that
+   order; the order is a topological order of all the nodes to run.  K-graph evaluates greedy_order in coqc and
+   compares it with the order the implementation executed. *)
+Theorem C07_greedy_is_the_order (c : cfg) (ls : list label) (s : state) :
+  wf c -> c_maxc c = 1 -> prio_injective c ->
+  run c (init c) ls = Some s -> pc s = PFinished ->
+  Greedy.order_of ls = Greedy.greedy_order c.
+Proof. exact (GreedyFacts.greedy_is_the_order_strong c ls s). Qed.
+Print Assumptions C07_greedy_is_the_order.
+
+Theorem C07_greedy_order_is_a_topological_enumeration (c : cfg) :
+  wf c ->
+  Permutation.Permutation (Greedy.greedy_order c) (diff (c_nodes c) (c_pre c)) /\
+  (forall pre n post p, Greedy.greedy_order c = pre ++ n :: post -> In p (c_preds c n) -> In p (diff (c_nodes c) (c_pre c)) -> In p pre).
+Proof. intros W. split; [exact (GreedyFacts.greedy_order_perm c W)|exact (GreedyFacts.greedy_order_topological c)]. Qed.
+Print Assumptions C07_greedy_order_is_a_topological_enumeration.
